@@ -71,6 +71,10 @@ type c08Run struct {
 	restarted bool
 	life      *lifecycle.Controller
 	deletedBy map[string]string // candidate NodeClaim name -> who deleted it ("queue" or env actor)
+	// deletedByCmd: the live command the queue's Delete is attributed to
+	deletedByCmd map[string]*disruption.Command
+	everInit     map[string]bool // replacement name -> it reported Initialized at the end of some earlier step
+	latched      bool
 }
 
 func (x *c08Run) newControllers() {
@@ -114,38 +118,74 @@ func (x *c08Run) after(c *world.Call) {
 	if c.Verb != "delete" || c.Kind != "NodeClaim" {
 		return
 	}
-	// is it a candidate of some command?
+	// Attribute the Delete to the command(s) that hold this candidate NOW (a command dropped by a restart is gone; a
+	// later command of the new queue may legitimately hold the same node). No live holder => nobody may delete it.
+	liveSet := map[*disruption.Command]bool{}
+	for _, lc := range x.env.Queue.GetCommands() {
+		liveSet[lc] = true
+	}
+	isCandidate, held := false, false
 	for _, cmd := range x.cmds {
 		for _, cn := range cmd.Candidates {
 			if cn.NodeClaim == nil || cn.NodeClaim.Name != c.Name {
 				continue
 			}
-			var notReady []string
-			live := false
-			for _, lc := range x.env.Queue.GetCommands() {
-				if lc == cmd {
-					live = true
-				}
+			isCandidate = true
+			if !liveSet[cmd] {
+				continue
 			}
+			held = true
+			var notReady []string
 			for _, r := range cmd.Replacements {
 				nc := w.GetNodeClaim(r.Name)
-				if r.Name == "" || nc == nil {
+				switch {
+				case nc != nil && nc.StatusConditions().Get(v1.ConditionTypeInitialized).IsTrue():
+				case r.Name != "" && x.everInit[r.Name]:
+					// The queue latches a replacement's readiness (Replacement.Initialized, named by the property's anchors):
+					// a replacement that REPORTED Initialized and disappeared afterwards still counts. Reported, not judged.
+					x.latched = true
+				case r.Name == "" || nc == nil:
 					notReady = append(notReady, fmt.Sprintf("replacement %q does not exist", r.Name))
-				} else if !nc.StatusConditions().Get(v1.ConditionTypeInitialized).IsTrue() {
+				default:
 					notReady = append(notReady, "replacement "+r.Name+" is not Initialized")
 				}
 			}
 			if len(notReady) > 0 {
 				x.viol = append(x.viol, c01Violation{"candidate deleted before every replacement is initialized", fmt.Sprintf("Delete of candidate %s requested while %s (command %s)", c.Name, strings.Join(notReady, "; "), cmdString(cmd))})
 			}
-			if !live {
-				x.viol = append(x.viol, c01Violation{"candidate deleted by an action that is no longer in flight", fmt.Sprintf("Delete of candidate %s requested although its command is not in the orchestration queue (restarted=%v)", c.Name, x.restarted)})
-			}
 			if c.Err == "" {
 				x.deletedBy[c.Name] = "queue"
+				x.deletedByCmd[c.Name] = cmd
 			}
 		}
 	}
+	if isCandidate && !held {
+		x.viol = append(x.viol, c01Violation{"candidate deleted by an action that is no longer in flight", fmt.Sprintf("Delete of candidate %s requested although no command holding it is in the orchestration queue (restarted=%v)", c.Name, x.restarted)})
+		if c.Err == "" {
+			x.deletedBy[c.Name] = "queue"
+		}
+	}
+}
+
+// startRound runs one disruption round. A command started for a node that is still held by a command that was in flight
+// when the round began makes that node the subject of two concurrent actions (the queue's map would silently drop the
+// older command, so this is judged here and not from the map).
+func (x *c08Run) startRound() {
+	holder := map[string]*disruption.Command{}
+	for _, lc := range x.env.Queue.GetCommands() {
+		for _, cn := range lc.Candidates {
+			holder[cn.ProviderID()] = lc
+		}
+	}
+	cmds, _ := x.env.round(x.sc.methods...)
+	for _, c := range cmds {
+		for _, cn := range c.Candidates {
+			if old, ok := holder[cn.ProviderID()]; ok && old != c {
+				x.viol = append(x.viol, c01Violation{"node is the subject of two concurrent actions", fmt.Sprintf("command %s was started for %s while command %s, which holds the same node, was still in flight", cmdString(c), cn.Name(), cmdString(old))})
+			}
+		}
+	}
+	x.cmds = append(x.cmds, cmds...)
 }
 
 func (x *c08Run) checkDisjoint() {
@@ -176,8 +216,7 @@ func (x *c08Run) run(run *explore.Run, steps int, faults bool) {
 		var script []act
 		if !started {
 			script = append(script, act{"disruption-round", func() {
-				cmds, _ := env.round(x.sc.methods...)
-				x.cmds = append(x.cmds, cmds...)
+				x.startRound()
 				started = true
 			}})
 		}
@@ -224,8 +263,7 @@ func (x *c08Run) run(run *explore.Run, steps int, faults bool) {
 			menu = append(menu, act{"clock+11m", func() { w.Clock.Step(11 * time.Minute) }})
 			menu = append(menu, act{"controller-restart", func() { x.restart() }})
 			menu = append(menu, act{"second-disruption-round", func() {
-				cmds, _ := env.round(x.sc.methods...)
-				x.cmds = append(x.cmds, cmds...)
+				x.startRound()
 			}})
 			for _, name := range x.replacementNames() {
 				name := name
@@ -264,6 +302,11 @@ func (x *c08Run) run(run *explore.Run, steps int, faults bool) {
 		menu[k].do()
 		w.SyncCluster()
 		x.checkDisjoint()
+		for _, name := range x.replacementNames() {
+			if nc := w.GetNodeClaim(name); nc != nil && nc.StatusConditions().Get(v1.ConditionTypeInitialized).IsTrue() {
+				x.everInit[name] = true
+			}
+		}
 		if started && len(x.liveCommands()) == 0 && k == 0 && scripted.name == "clock+2s" {
 			break
 		}
@@ -275,7 +318,26 @@ func (x *c08Run) run(run *explore.Run, steps int, faults bool) {
 	}
 	// ---- settle fault-free: two cleanup rounds of the disruption controller without methods
 	w.Client.Hook, w.CP.Hook = nil, nil
-	for i := 0; i < 2; i++ {
+	for i := 0; i < 3; i++ {
+		// replacements that are being deleted finish terminating (real lifecycle finalizer; their instance, if any,
+		// goes away): a NodeClaim stuck without a provider id would keep Cluster.Synced false and with it the
+		// controller's stale-taint cleanup, which is an artefact of stopping the history, not of the code
+		for _, name := range x.replacementNames() {
+			if nc := w.GetNodeClaim(name); nc != nil && nc.DeletionTimestamp != nil {
+				if n := w.GetNode("node-" + name); n != nil {
+					w.EnvDelete(n)
+				}
+				if nc.Status.ProviderID != "" {
+					w.InstanceGone(nc.Status.ProviderID)
+				}
+				_, _ = x.life.Reconcile(w.Ctx, nc)
+				w.SyncCluster()
+			} else if nc != nil && nc.Status.ProviderID == "" {
+				// an orphaned replacement whose launch failed transiently is launched by the (now fault-free) retry
+				_, _ = x.life.Reconcile(w.Ctx, nc)
+				w.SyncCluster()
+			}
+		}
 		_, _ = env.round()
 		w.SyncCluster()
 	}
@@ -290,7 +352,7 @@ func (x *c08Run) run(run *explore.Run, steps int, faults bool) {
 		// the action ended on the failure path
 		for _, cn := range cmd.Candidates {
 			name := cn.NodeClaim.Name
-			if x.deletedBy[name] == "queue" {
+			if x.deletedBy[name] == "queue" && x.deletedByCmd[name] == cmd {
 				x.viol = append(x.viol, c01Violation{"failed action deleted a candidate", fmt.Sprintf("command %s ended unsuccessfully but candidate %s was deleted by the queue", cmdString(cmd), name)})
 			}
 			if x.deletedBy[name] != "" {
@@ -350,33 +412,66 @@ func init() {
 		r.Rule = fmt.Sprintf("%d command shapes (drift 1->1, multi-node 2->1, emptiness delete-only, single-node delete, drift 1->2) are started by the real disruption controller and executed by the real orchestration queue with the real lifecycle controller launching / registering / initializing the replacements (kubelet events played by the harness, informers kept current); histories of %d steps: a fair default cycle (disruption round; per replacement lifecycle + kubelet; per command queue reconcile; clock +2s) and every history with <=%d deviations: any other enabled step inserted, clock +11m (past the retry window), controller restart (all in-memory state dropped), a second disruption round, a replacement vanishing, another actor deleting a candidate, or a failure of any individual API / provider call. "+
 			"Oracle: at every Delete of a candidate every replacement of its command exists and is Initialized and the command is in flight; live commands never share a provider id; after a fault-free settle the candidates of every command that ended unsuccessfully carry no disruption taint, no DisruptionReason condition and no deletion mark, and none was deleted by the queue. non-trivial = distinct (scenario, history)", len(c08Scenarios), steps, bound)
 		r.Assumptions = []string{"interleaving at reconcile granularity; the StartCommand fan-out inside one round is not a schedule dimension", "informers are kept current after every step (no stale cluster cache)"}
-		enum.Run(r, int64(len(c08Scenarios)), func(i int64, l *ev.Local) {
+		enum.RunEveryShard(r, int64(len(c08Scenarios)), func(i int64, l *ev.Local) {
 			sc := c08Scenarios[i]
-			ex := &explore.Explorer{Bound: bound, MaxExecs: 400000, Stop: r.Expired}
+			ex := &explore.Explorer{Bound: bound, MaxExecs: 400000, Stop: r.Expired, Shard: r.Shard, NShards: r.Shards}
 			ex.Exec = func(run *explore.Run) {
-				x := &c08Run{env: buildDisrupt(sc.world()), sc: sc, deletedBy: map[string]string{}}
+				l.Mute = run.Replica
+				x := &c08Run{env: buildDisrupt(sc.world()), sc: sc, deletedBy: map[string]string{}, deletedByCmd: map[string]*disruption.Command{}, everInit: map[string]bool{}}
 				x.run(run, steps, !sc.fanout)
 				l.Eval()
-				l.Traces++
+				l.Trace()
 				l.Nontrivial(sc.name + "/" + strings.Join(x.history, ","))
 				outcome := "no-command"
 				if len(x.cmds) > 0 {
 					outcome = fmt.Sprintf("commands=%d succeeded=%v", len(x.cmds), x.cmds[0].Succeeded)
 				}
 				l.Outcome(sc.name + ": " + outcome)
+				if x.latched {
+					l.Outcome("candidate deleted after a replacement that had reported Initialized vanished (latched readiness; reported, not judged)")
+				}
 				for _, v := range x.viol {
-					l.Violation(v.Sig, fmt.Sprintf("%s  [scenario=%s history=%v]", v.Msg, sc.name, x.history), map[string]any{"scenario": sc.name, "choices": run.Choices(), "history": x.history, "calls": callStrings(x.env.W)})
+					l.Violation(v.Sig, fmt.Sprintf("%s  [scenario=%s history=%v]", v.Msg, sc.name, x.history), map[string]any{"scenario": sc.name, "choices": run.Choices(), "faults": run.Plan(), "history": x.history, "calls": callStrings(x.env.W)})
 				}
 				if run.Used == bound && len(x.history)%6 == 0 {
 					l.Sample(map[string]any{"scenario": sc.name, "history": x.history, "outcome": outcome})
 				}
 			}
 			ex.Explore()
+			noteDiverged(l, ex, "prefix")
 			l.Transitions += int64(ex.Points)
 			if ex.Capped {
 				l.Outcome("exploration-capped")
 				r.Exhaustive = false
 			}
 		})
+	})
+}
+
+func init() {
+	registerReplay("C08", func(d map[string]any) []string {
+		name, _ := d["scenario"].(string)
+		for _, sc := range c08Scenarios {
+			if sc.name != name {
+				continue
+			}
+			x := &c08Run{env: buildDisrupt(sc.world()), sc: sc, deletedBy: map[string]string{}, deletedByCmd: map[string]*disruption.Command{}, everInit: map[string]bool{}}
+			x.run(explore.ReplayPlan(intList(d["choices"]), intMap(d["faults"])), 24, !sc.fanout)
+			fmt.Printf("scenario %s\nhistory %v\n", sc.name, x.history)
+			for _, c := range x.cmds {
+				fmt.Printf("command %s succeeded=%v\n", cmdString(c), c.Succeeded)
+			}
+			for _, c := range callStrings(x.env.W) {
+				fmt.Println("  call:", c)
+			}
+			var sigs []string
+			for _, v := range x.viol {
+				fmt.Printf("violation %q: %s\n", v.Sig, v.Msg)
+				sigs = append(sigs, v.Sig)
+			}
+			return sigs
+		}
+		fmt.Println("unknown scenario", name)
+		return nil
 	})
 }
